@@ -208,7 +208,9 @@ func (k Keeper) UpdateLPRewards(ctx sdk.Context) error {
 	// Ensure edenDenomPrice is not zero to avoid division by zero
 	edenDenomPrice := k.amm.GetEdenDenomPrice(ctx, baseCurrency)
 	if edenDenomPrice.IsZero() {
-		return errorsmod.Wrap(types.ErrNoInflationaryParams, "invalid eden price")
+		// the pool-derived price can round down to zero (a nearly worthless ELYS pool price); failing here
+		// would fail the end blocker and halt the chain, so continue with the smallest representable price
+		edenDenomPrice = math.LegacySmallestDec()
 	}
 
 	// Distribute Eden / USDC Rewards
